@@ -8,6 +8,7 @@
    the theorems below that mention them are re-checked against the current pathConfCanBeUpdated / conf.Path. *)
 From Coq Require Import List ZArith String.
 Require Import MTX.Model.C14_PathConf MTX.Proofs.C14_PathConf MTX.Model.C15_PathMgr MTX.Proofs.C15_PathMgr.
+Require Import MTX.Model.C15_Delivery MTX.Proofs.C15_Delivery.
 Require Import MTXGen.C15_HotFields.
 Import ListNotations.
 Local Open Scope Z_scope.
@@ -66,6 +67,100 @@ Theorem C15_kept_iff : forall (m : str -> str -> option (list str)) (mask : list
    exists k c g, find m nc (p_name p) = Found k c g /\ can_update_mask mask (p_conf p) c = true).
 Proof. exact kept_iff. Qed.
 Print Assumptions C15_kept_iff.
+
+(* ---- second layer (Model/C15_Delivery.v): the hand-over of a reloaded configuration to a live path is a step of
+   its own. `run` above is the MANAGER's side (its tables, and for each live path what it last handed over); the
+   path goroutine runs with what it has RECEIVED. xrun m mask ordered guarded: XReload issues hand-overs (queued per
+   path), XDeliver n i lets path n receive one (ordered: the oldest; otherwise the i-th pending one), XCreate / XLeave
+   as before, except that an idle path decides to close from the configuration it runs with.
+   ordered = guarded = true is the code after the two fix: commits of this layer. *)
+
+(* Hand-overs received in order: after ANY history of reloads, on-demand creations, publishers leaving and
+   deliveries interleaved in any way (a path may still be waiting for the first hand-over while several later reloads
+   are processed), for any oracle and mask:
+   - the manager's side is reconciled and never dereferences a missing configuration;
+   - for every live path, receiving its pending hand-overs (oldest first) leads to exactly what the manager recorded;
+   - a live path with nothing pending runs with exactly the configuration name, configuration and capture groups that
+     FindPathConf selects for its name; if nothing is pending anywhere, the whole property holds of what the paths run with;
+   - the pending hand-overs can always be received (drain_ops: only XDeliver steps), and then it holds. *)
+Theorem C15_delivery_in_order : forall (m : str -> str -> option (list str)) (mask : list bool) cs h,
+  NoDup (map fst cs) -> Forall wf_xop h ->
+  let s := xrun m mask true true (xinit m mask cs) h in
+  Rec m (proj s) /\ xs_crashed s = false /\
+  (forall x, In x (xs_paths s) -> settle x = mgr_view (x_p x)) /\
+  (forall x, In x (xs_paths s) -> x_queue x = [] -> runs_resolved m (xs_confs s) x) /\
+  (quiet s = true -> Rec m (applied_view s)) /\
+  xrun m mask true true s (drain_ops s) = drain s /\ quiet (drain s) = true /\ Rec m (applied_view (drain s)).
+Proof. exact delivery_in_order. Qed.
+Print Assumptions C15_delivery_in_order.
+
+(* the invariant of the second layer is inductive: one step (a delivery included) from ANY state satisfying it *)
+Theorem C15_delivery_step_preserves : forall (m : str -> str -> option (list str)) (mask : list bool) s o,
+  XInv m s -> wf_xop o -> XInv m (xstep m mask true true s o).
+Proof. exact xstep_xinv. Qed.
+Print Assumptions C15_delivery_step_preserves.
+
+(* deliveries never change what the manager decides: its side of a reload step is the first-layer `reload`
+   (so C15_kept_iff speaks about every state of the second layer), a delivery leaves it untouched *)
+Theorem C15_delivery_manager_side : forall (m : str -> str -> option (list str)) (mask : list bool) o s nc n i,
+  proj (xreload m mask s nc) = reload m mask true (proj s) nc /\
+  proj (xdeliver o s n i) = proj s /\
+  proj (xcreate m s n) = create m (proj s) n.
+Proof. exact delivery_manager_side. Qed.
+Print Assumptions C15_delivery_manager_side.
+
+(* The code as found (one free goroutine per hand-over: any pending one may be received next) does NOT satisfy it:
+   static path foo, two hot reloads (recordPath v1, then v2) issued before the path receives anything, received in
+   the opposite order: nothing is pending any more, the manager's table holds v2, the path runs with v1 - for good.
+   Replayed on the real pathManager (driver class raced-reloads), fixed in /repo. *)
+Theorem C15_delivery_unordered_refuted :
+  exists m cs h, NoDup (map fst cs) /\ Forall wf_xop h /\
+    let s := xrun m hot_mask false true (xinit m hot_mask cs) h in
+    quiet s = true /\ ~ Rec m (applied_view s).
+Proof. exact delivery_unordered_refuted. Qed.
+Print Assumptions C15_delivery_unordered_refuted.
+
+(* The code as found also lets an idle path close itself from the configuration it still RUNS with: publish foo
+   under ~^(f)oo$, a reload adds the static configuration foo (hot-compatible: the path is kept and handed the new
+   configuration), the publisher leaves before the path has received it: the path sees a regexp configuration and
+   no source, asks to be closed, the manager closes it: the static configuration foo has no live path.
+   Replayed on the real pathManager, fixed in /repo (the manager checks its own record before closing). *)
+Theorem C15_idle_close_refuted :
+  exists m cs h, NoDup (map fst cs) /\ Forall wf_xop h /\
+    ~ Rec m (proj (xrun m hot_mask true false (xinit m hot_mask cs) h)).
+Proof. exact idle_close_refuted. Qed.
+Print Assumptions C15_idle_close_refuted.
+
+(* non-vacuity of the second layer: the raced witness through both delivery disciplines (the three configurations
+   differ on a hot field only); groups of one configuration with the fields of another; the idle-close witness through
+   the guarded manager (path kept, one hand-over pending) *)
+Example C15_example_raced :
+  (can_update (cvec 0) (cvec 1) = true /\ can_update (cvec 1) (cvec 2) = true /\ conf_eqb (cvec 1) (cvec 2) = false) /\
+  (let s := xrun ex_oracle hot_mask false true (xinit ex_oracle hot_mask raced_confs) raced_hist in
+   quiet s = true /\ map (fun x => (p_gen (x_p x), conf_eqb (x_conf x) (cvec 1))) (xs_paths s) = [(0, true)] /\
+   xs_confs s = [(n_foo, cvec 2)]) /\
+  (let s := xrun ex_oracle hot_mask true true (xinit ex_oracle hot_mask raced_confs) raced_hist in
+   quiet s = true /\ map (fun x => (p_gen (x_p x), conf_eqb (x_conf x) (cvec 2))) (xs_paths s) = [(0, true)]) /\
+  (let s := xrun ex_oracle hot_mask false true (xinit ex_oracle hot_mask [(k_foo1, cvec 0)]) raced_groups_hist in
+   map (fun x => (p_confName (x_p x), x_cname x, conf_eqb (x_conf x) (cvec 1), x_matches x, x_queue x)) (xs_paths s)
+   = [(k_foo2, k_foo1, true, [n_foo; g_oo], [])]) /\
+  (let s := xrun ex_oracle hot_mask true true (xinit ex_oracle hot_mask idle_confs) idle_hist in
+   map (fun x => (p_name (x_p x), p_confName (x_p x), x_cname x, List.length (x_queue x))) (xs_paths s)
+   = [(n_foo, n_foo, k_foo1, 1%nat)]).
+Proof.
+  split; [exact raced_hot|]. split; [exact raced_unordered_state|]. split; [exact raced_ordered_state|].
+  split; [exact raced_groups_state|exact idle_close_guarded].
+Qed.
+
+(* a history with deliveries interleaved with later reloads: three reloads of the static path foo are issued, the
+   path receives the first after the second was issued and the other two at the end: it runs v3, nothing pending *)
+Example C15_example_interleaved :
+  let s := xrun ex_oracle hot_mask true true (xinit ex_oracle hot_mask raced_confs)
+             [XReload [(n_foo, cvec 1)]; XReload [(n_foo, cvec 2)]; XDeliver n_foo 0; XReload [(n_foo, cvec 3)]] in
+  map (fun x => (conf_eqb (x_conf x) (cvec 1), List.length (x_queue x))) (xs_paths s) = [(true, 2%nat)] /\
+  map (fun x => (conf_eqb (x_conf x) (cvec 3), List.length (x_queue x)))
+      (xs_paths (xrun ex_oracle hot_mask true true s (drain_ops s))) = [(true, 0%nat)].
+Proof. vm_compute. split; reflexivity. Qed.
 
 (* non-vacuity *)
 Example C15_example_witness :
